@@ -1,6 +1,7 @@
 #!/bin/bash
 # usage: run_suite.sh <worktree>   -- runs the package's whole test suite in <worktree> and compares the
 # set of failing tests with the unchanged tree (a few tests fail there because `pyfmtools` is missing).
+export OMP_NUM_THREADS=1 MKL_NUM_THREADS=1 OPENBLAS_NUM_THREADS=1
 WT="$1"; OUT=$(mktemp /tmp/suite-XXXX.xml)
 cd "$WT" && timeout 3000 /venv/bin/python -m pytest -q -p no:cacheprovider --timeout=900 --continue-on-collection-errors --junitxml="$OUT" > "$OUT.log" 2>&1
 python3 - "$OUT" <<'PY'
